@@ -1,8 +1,9 @@
 use crate::error::Qcow2Result;
 use crate::helpers::{IntAlignment, Qcow2IoBuf};
-use crate::meta::{L2Entry, Mapping, MappingSource, SplitGuestOffset};
+use crate::meta::{L2Entry, L2Table, Mapping, MappingSource, SplitGuestOffset};
 use crate::zero_buf;
 use async_recursion::async_recursion;
+use futures_locks::RwLockReadGuard as LockReadGuard;
 use miniz_oxide::inflate::core::{decompress as inflate, DecompressorOxide};
 use miniz_oxide::inflate::TINFLStatus;
 
@@ -18,6 +19,21 @@ impl<T: Qcow2IoOps> Qcow2Dev<T> {
 
     #[inline]
     pub(crate) async fn get_l2_entry(&self, virtual_offset: u64) -> Qcow2Result<L2Entry> {
+        Ok(self.get_l2_entry_locked(virtual_offset).await?.0)
+    }
+
+    /// Look up the l2 entry and return it together with the read lock of
+    /// its l2 slice (none if there is no l2 table).
+    ///
+    /// A reader keeps that lock until its data is in: as long as it is held
+    /// the entry can't be changed, so the host cluster it points to can't
+    /// be discarded (or replaced by COW), released and handed out to
+    /// someone else, whose data the reader would then return.
+    #[inline]
+    async fn get_l2_entry_locked(
+        &self,
+        virtual_offset: u64,
+    ) -> Qcow2Result<(L2Entry, Option<LockReadGuard<L2Table>>)> {
         let info = &self.info;
         let split = SplitGuestOffset(virtual_offset);
         let key = split.l2_slice_key(info);
@@ -25,23 +41,30 @@ impl<T: Qcow2IoOps> Qcow2Dev<T> {
         // fast path
         if let Some(res) = self.l2cache.get(key) {
             let l2_slice = res.value().read().await;
-            Ok(l2_slice.get_entry(info, &split))
+            Ok((l2_slice.get_entry(info, &split), Some(l2_slice)))
         } else {
             let l1_entry = self.get_l1_entry(&split).await?;
 
             if l1_entry.is_zero() {
-                Ok(L2Entry(0))
+                Ok((L2Entry(0), None))
             } else {
                 let entry = self.get_l2_slice_slow(&l1_entry, &split).await?;
                 let l2_slice = entry.value().read().await;
-                Ok(l2_slice.get_entry(info, &split))
+                Ok((l2_slice.get_entry(info, &split), Some(l2_slice)))
             }
         }
     }
 
+    /// Look up the l2 entries of a range; the read locks of the l2 slices
+    /// involved are returned too, see get_l2_entry_locked()
     #[inline]
-    async fn get_l2_entries(&self, off: u64, len: usize) -> Qcow2Result<Vec<L2Entry>> {
+    async fn get_l2_entries(
+        &self,
+        off: u64,
+        len: usize,
+    ) -> Qcow2Result<(Vec<L2Entry>, Vec<LockReadGuard<L2Table>>)> {
         let info = &self.info;
+        let mut guards = Vec::new();
         let start = info.cluster_round_down(off);
         let end = info.cluster_round_up(off + len as u64);
         let mut entries = Vec::with_capacity(((end - start) as usize) >> info.cluster_bits());
@@ -81,9 +104,10 @@ impl<T: Qcow2IoOps> Qcow2Dev<T> {
                 entries.push(l2_slice.get_entry(info, &s));
             }
             voff = this_end;
+            guards.push(l2_slice);
         }
 
-        Ok(entries)
+        Ok((entries, guards))
     }
 
     pub(crate) async fn do_read_compressed(
@@ -296,7 +320,7 @@ impl<T: Qcow2IoOps> Qcow2Dev<T> {
                 == ((offset + (len as u64) - 1) >> info.cluster_bits());
 
         let done = if single {
-            let l2_entry = self.get_l2_entry(offset).await?;
+            let (l2_entry, _l2_guard) = self.get_l2_entry_locked(offset).await?;
 
             self.do_read(l2_entry, offset, buf).await?
         } else {
@@ -306,7 +330,7 @@ impl<T: Qcow2IoOps> Qcow2Dev<T> {
             let mut remain = &mut *buf;
             let mut idx = 0;
             let mut s = 0;
-            let l2_entries = self.get_l2_entries(offset, len).await?;
+            let (l2_entries, _l2_guards) = self.get_l2_entries(offset, len).await?;
 
             while len > 0 {
                 let in_cluster_offset = info.in_cluster_offset(offset);
